@@ -428,6 +428,14 @@ func (vc *VC) evalCall(x *ECall, env *Env) SVal {
 			unsup("has(m, k): m is not a map")
 		}
 		return boolV(vc.mapHas(env.mem, m, MT, arg(1)))
+	case "mget":
+		// mget(m, k): the value stored under key k (the zero value when absent); k may be a string
+		m := arg(0)
+		MT, ok := m.T.Underlying().(*types.Map)
+		if !ok {
+			unsup("mget(m, k): m is not a map")
+		}
+		return vc.mapGet(env.mem, m, MT, arg(1))
 	case "blen":
 		// ghost: number of bytes in a buffer.Buffer
 		vc.keyType["buffer.len"] = types.Typ[types.Int]
@@ -447,40 +455,18 @@ func (vc *VC) evalCall(x *ECall, env *Env) SVal {
 		return mkInt(vc.leafLoad(env.mem, "ghost."+id.Name, SInt, objOf(arg(1)), "0"))
 	case "cast":
 		// cast(x, T): the pointer *T (T a named type of the package under verification) to object x
-		id, ok := x.Args[1].(*EIdent)
-		if !ok || vc.fn.Pkg == nil {
-			unsup("cast(x, T)")
-		}
-		tn := vc.fn.Pkg.Pkg.Scope().Lookup(id.Name)
-		if tn == nil {
-			unsup("cast: no type %s in package %s", id.Name, vc.fn.Pkg.Pkg.Path())
-		}
-		p := ptrV(types.NewPointer(tn.Type()), objOf(arg(0)), "0")
-		p.Key = ptrKeyFor(tn.Type())
+		T := vc.namedType(x.Args[1])
+		p := ptrV(types.NewPointer(T), objOf(arg(0)), "0")
+		p.Key = ptrKeyFor(T)
 		return p
 	case "isptr":
 		// isptr(x, T): interface value x is non-nil and its dynamic type is *T
-		id, ok := x.Args[1].(*EIdent)
-		if !ok || vc.fn.Pkg == nil {
-			unsup("isptr(x, T)")
-		}
-		tn := vc.fn.Pkg.Pkg.Scope().Lookup(id.Name)
-		if tn == nil {
-			unsup("isptr: no type %s in package %s", id.Name, vc.fn.Pkg.Pkg.Path())
-		}
+		T := vc.namedType(x.Args[1])
 		v := arg(0)
-		return boolV(and(not(eq(v.S, "0")), eq(sx(vc.typeofFn(), v.S), litI(int64(vc.eng.typeID(types.NewPointer(tn.Type())))))))
+		return boolV(and(not(eq(v.S, "0")), eq(sx(vc.typeofFn(), v.S), litI(int64(vc.eng.typeID(types.NewPointer(T)))))))
 	case "unbox":
 		// unbox(x, T): the *T held by interface value x (T a named type of the package under verification)
-		id, ok := x.Args[1].(*EIdent)
-		if !ok || vc.fn.Pkg == nil {
-			unsup("unbox(x, T)")
-		}
-		tn := vc.fn.Pkg.Pkg.Scope().Lookup(id.Name)
-		if tn == nil {
-			unsup("unbox: no type %s in package %s", id.Name, vc.fn.Pkg.Pkg.Path())
-		}
-		return vc.unboxVal(arg(0), types.NewPointer(tn.Type()))
+		return vc.unboxVal(arg(0), types.NewPointer(vc.namedType(x.Args[1])))
 	case "gstr":
 		// gstr(key, x): a ghost STRING of object x: three ghost cells (view object, offset, length)
 		id, ok := x.Args[0].(*EIdent)
